@@ -294,7 +294,7 @@ var vp9Params = []paramSet{
 // ---- configuration ----
 
 type trackSpec struct {
-	Kind    string `json:"kind"` // h264 h265 vp9 av1 aac44 aac48 aac16 opus
+	Kind    string `json:"kind"` // h264 h264b h265 h265b vp9 av1 aac44 aac48 aac16 aacsbr opus
 	Name    string `json:"name,omitempty"`
 	Lang    string `json:"lang,omitempty"`
 	Default bool   `json:"default,omitempty"`
@@ -316,6 +316,8 @@ func (t trackSpec) clock() int {
 		return 48000
 	case "aac16":
 		return 16000
+	case "aacsbr": // HE-AAC, explicit SBR signalling: 24 kHz core (the track's clock and timescale), 48 kHz extension
+		return 24000
 	}
 	return 90000
 }
@@ -333,6 +335,11 @@ type muxCfg struct {
 	// ParamDelta: the two video parameter sets of the writer differ in exactly this component (h264: sps pps; h265: vps sps
 	// pps; vp9: width height profile bitdepth chroma range); "" = the reference sets, which differ in every component
 	ParamDelta string `json:"param_delta,omitempty"`
+	// Defaults: Variant, SegmentMinDuration and PartMinDuration are left at their zero values, so that Start fills in the
+	// documented defaults (Low-Latency, 1 s, 200 ms - which is what Variant / SegMinMS / PartMS of this configuration say);
+	// MayRefuse: Start may refuse the configuration (then there is nothing to check)
+	Defaults  bool `json:"defaults,omitempty"`
+	MayRefuse bool `json:"may_refuse,omitempty"`
 }
 
 // opusDur is the duration in 48 kHz ticks of packet k of one WriteOpus call.
@@ -380,6 +387,9 @@ func (c muxCfg) String() string {
 	}
 	if c.OpusMix {
 		s += " opus-mix"
+	}
+	if c.Defaults {
+		s += " zero-valued-fields"
 	}
 	if c.ParamDelta != "" {
 		s += " delta=" + c.ParamDelta
@@ -431,6 +441,9 @@ func newTrackCfg(c muxCfg, t trackSpec) *Track {
 		tr.Codec = &codecs.VP9{Width: 1920, Height: 804, Profile: 0, BitDepth: 8, ChromaSubsampling: 1, ColorRange: false}
 	case "aac44", "aac48", "aac16":
 		tr.Codec = &codecs.MPEG4Audio{Config: mpeg4audio.Config{Type: 2, SampleRate: t.clock(), ChannelCount: 2}}
+	case "aacsbr":
+		tr.Codec = &codecs.MPEG4Audio{Config: mpeg4audio.Config{Type: 2, SampleRate: t.clock(), ChannelCount: 2,
+			ExtensionType: mpeg4audio.ObjectTypeSBR, ExtensionSampleRate: 2 * t.clock()}}
 	case "opus":
 		tr.Codec = &codecs.Opus{ChannelCount: 2}
 	}
@@ -466,6 +479,9 @@ func newMux(cfg muxCfg, dir string) (*muxInst, error) {
 				mi.onEncodeError(err)
 			}
 		},
+	}
+	if cfg.Defaults {
+		mi.m.Variant, mi.m.SegmentMinDuration, mi.m.PartMinDuration = 0, 0, 0
 	}
 	if cfg.Disk {
 		mi.m.Directory = dir
